@@ -256,6 +256,23 @@ def scaleAfter (cfg : Cfg) (sc : Option (Nat × Nat)) (s : Nat) : Option (Nat ×
 def setScale (cfg : Cfg) (cl : Client) (s : Nat) : Client :=
   { cl with scaled := scaleAfter cfg cl.scaled s }
 
+/-- the `if(!cl->viewOnly) { ... }` block of the PointerEvent case: deliver at once, or coalesce
+(only when `deferPtrUpdateTime != 0` and the button mask is unchanged) -/
+def ptrDeliver (cfg : Cfg) (cl : Client) (mask x y : Nat) : Client × List Callback :=
+  if mask ≠ cl.lastPtrButtons ∨ cfg.deferPtr = 0 then
+    -- FIXED code (fixes/C06-ptr-defer-order.diff): a coalesced position still pending is
+    -- delivered first (with the buttons it was sent with), then the new event.  The unfixed
+    -- code left `lastPtrX` set: the stale position was delivered later, after and with the
+    -- button mask of the newer event.
+    match cl.lastPtr with
+    | some (px, py) =>
+      ({ cl with lastPtrButtons := mask, lastPtr := none, startUsec := 0 },
+       [.ptr cl.id cl.lastPtrButtons px py, .ptr cl.id mask (sx cfg cl x) (sy cfg cl y)])
+    | none =>
+      ({ cl with lastPtrButtons := mask }, [.ptr cl.id mask (sx cfg cl x) (sy cfg cl y)])
+  else
+    ({ cl with lastPtr := some (sx cfg cl x, sy cfg cl y), lastPtrButtons := mask }, [])
+
 def handleNormal (cfg : Cfg) (owner : Option Nat) (cl : Client) :
     Msg → Client × Option Nat × List Callback
   | .setPixelFormat b =>
@@ -272,24 +289,15 @@ def handleNormal (cfg : Cfg) (owner : Option Nat) (cl : Client) :
   | .key down k =>
     (cl, owner, if cl.viewOnly then [] else [.kbd cl.id down k])
   | .pointer mask x y =>
+    -- FIXED code (fixes/C06-viewonly-pointer-grab.diff): a view-only client never takes the
+    -- pointer, and gives it up if it still has it (the unfixed code updated pointerClient before
+    -- testing viewOnly, so a view-only observer pressing a button locked out everybody else)
+    if cl.viewOnly then (cl, if owner = some cl.id then none else owner, [])
     -- if (pointerClient && pointerClient != cl) return;
-    if owner.isSome ∧ owner ≠ some cl.id then (cl, owner, [])
+    else if owner.isSome ∧ owner ≠ some cl.id then (cl, owner, [])
     else
-      let owner' := if mask = 0 then none else some cl.id
-      if cl.viewOnly then (cl, owner', [])
-      else if mask ≠ cl.lastPtrButtons ∨ cfg.deferPtr = 0 then
-        -- FIXED code (fixes/C06-ptr-defer-order.diff): a coalesced position still pending is
-        -- delivered first (with the buttons it was sent with), then the new event.  The unfixed
-        -- code left `lastPtrX` set: the stale position was delivered later, after and with the
-        -- button mask of the newer event.
-        match cl.lastPtr with
-        | some (px, py) =>
-          ({ cl with lastPtrButtons := mask, lastPtr := none, startUsec := 0 }, owner',
-           [.ptr cl.id cl.lastPtrButtons px py, .ptr cl.id mask (sx cfg cl x) (sy cfg cl y)])
-        | none =>
-          ({ cl with lastPtrButtons := mask }, owner', [.ptr cl.id mask (sx cfg cl x) (sy cfg cl y)])
-      else
-        ({ cl with lastPtr := some (sx cfg cl x, sy cfg cl y), lastPtrButtons := mask }, owner', [])
+      let r := ptrDeliver cfg cl mask x y
+      (r.1, if mask = 0 then none else some cl.id, r.2)
   | .cutText txt => (cl, owner, if cl.viewOnly then [] else [.cut cl.id txt])
   | .cutTextTooBig _ => (closeCl cl, owner, [])
   | .cutTextExt p => (handleExtClip cl p, owner, [])
